@@ -9,6 +9,10 @@ def text_edit(old, new):
         return src.replace(old, new, 1) if old in src else None
     return edit
 MUTANTS = [
+    Mutant('lcs_tie_delete_last', 'src/pharmpy/internals/sequence/lcs.py', text_edit("    elif c[i + 1][j] >= c[i][j + 1]:", "    elif c[i + 1][j] > c[i][j + 1]:"), 'P6', 'tie emits the deletion last'),
+    Mutant('lcs_wrong_branch', 'src/pharmpy/internals/sequence/lcs.py', text_edit("    elif c[i + 1][j] >= c[i][j + 1]:", "    elif c[i + 1][j] <= c[i][j + 1]:"), 'P6', 'shorter subsequence followed'),
+    Mutant('theta_upper_only_list', 'src/pharmpy/model/external/nonmem/update.py', text_edit("            code += f'(-INF,{init},{upper})'", "            code += f'({init},{upper})'"), 'P4', 'upper-only bound written as two values'),
+    Mutant('theta_fix_dropped', 'src/pharmpy/model/external/nonmem/update.py', text_edit("    if param.fix:\n        code += ' FIX'\n\n    code += f' ; {param.name}\\n'", "    code += f' ; {param.name}\\n'"), 'P4', 'FIX not written'),
     Mutant('theta_update_index_by_one', T, edit_node('ThetaRecord.update', stmt_containing('i += n'), lambda seg: 'i += 1'), 'P1', 'index ignores xn'),
     Mutant('len_ignores_xn', T, edit_node('ThetaRecord.__len__', stmt_containing('tot += self._multiple(theta)'), lambda seg: 'tot += 1'), 'P1', 'length counts nodes'),
     Mutant('omega_update_index_by_one', O, text_edit('                            if j != len(new_inits) - 1:  # Not the last\n                                new_nodes.append(AttrTree.create(\'ws\', {\'WS\': \' \'}))\n                    i += n', '                            if j != len(new_inits) - 1:  # Not the last\n                                new_nodes.append(AttrTree.create(\'ws\', {\'WS\': \' \'}))\n                    i += 1'), 'P1', 'diag index ignores xn'),
